@@ -56,6 +56,8 @@ impl<'a> ZoneWriter<'a> {
         // Write .zones metadata (delegated, async)
         let metadata_writer = ZoneMetadataWriter::new(self.uid, self.segment_dir);
         metadata_writer.write_async(zone_plans).await?;
+        #[cfg(sneldb_verif)]
+        crate::verif_hooks::step_async("zw.zones").await;
 
         // Write .col files
         let mut writer = ColumnWriter::new(self.segment_dir.to_path_buf(), self.registry.clone());
@@ -70,6 +72,8 @@ impl<'a> ZoneWriter<'a> {
             );
         }
         writer.write_all(zone_plans).await?;
+        #[cfg(sneldb_verif)]
+        crate::verif_hooks::step_async("zw.cols").await;
 
         // Build plan: decide which indexes to build per field/global
         let schema = self
@@ -123,6 +127,8 @@ impl<'a> ZoneWriter<'a> {
             .build_for_zone_plans(zone_plans)
             .await?;
 
+        #[cfg(sneldb_verif)]
+        crate::verif_hooks::step_async("zw.temporal").await;
         // Build XOR filters
         if tracing::enabled!(tracing::Level::DEBUG) {
             debug!(
@@ -264,6 +270,8 @@ impl<'a> ZoneWriter<'a> {
             }
         }
 
+        #[cfg(sneldb_verif)]
+        crate::verif_hooks::step_async("zw.filters").await;
         // Build and write index
         if tracing::enabled!(tracing::Level::DEBUG) {
             debug!(
@@ -289,6 +297,8 @@ impl<'a> ZoneWriter<'a> {
             );
         }
         index.write_to_path_async(index_path).await?;
+        #[cfg(sneldb_verif)]
+        crate::verif_hooks::step_async("zw.idx").await;
 
         // Write index catalog (.icx) if plan exists
         if let Some(plan) = build_plan.clone() {
